@@ -70,65 +70,40 @@ pub fn number_to_string(n: f64) -> String {
         return "0".to_string();
     }
 
-    let abs_n = n.abs();
+    // Number::toString (ECMAScript 6.1.6.1.20): take the shortest decimal digits that
+    // round-trip (Rust's `{:e}` produces exactly those) and choose the notation from the
+    // decimal exponent.
+    let sci = format!("{:e}", n.abs());
+    let (mantissa, exp) = sci.split_once('e').unwrap_or((sci.as_str(), "0"));
+    let exp: i32 = exp.parse().unwrap_or(0);
+    let digits: String = mantissa.chars().filter(|c| *c != '.').collect();
+    let k = digits.len() as i32;
+    // value = 0.d1d2...dk * 10^point
+    let point = exp + 1;
+    let sign = if n < 0.0 { "-" } else { "" };
 
-    // Check if it's an integer that can be represented exactly
-    if math::trunc(n) == n && abs_n < 1e21 {
-        // Format as integer (no decimal point)
-        return format!("{:.0}", n);
-    }
-
-    // Very small numbers (absolute value < 1e-6) use exponential notation
-    // Very large numbers (absolute value >= 1e21) use exponential notation
-    if !(1e-6..1e21).contains(&abs_n) {
-        // Use exponential notation
-        format_exponential(n)
+    if k <= point && point <= 21 {
+        // Integer: digits followed by zeros
+        let zeros = "0".repeat((point - k) as usize);
+        format!("{}{}{}", sign, digits, zeros)
+    } else if 0 < point && point <= 21 {
+        // Decimal point inside the digits
+        let (int_part, frac_part) = digits.split_at(point as usize);
+        format!("{}{}.{}", sign, int_part, frac_part)
+    } else if -6 < point && point <= 0 {
+        // 0.000ddd
+        let zeros = "0".repeat((-point) as usize);
+        format!("{}0.{}{}", sign, zeros, digits)
     } else {
-        // Use decimal notation
-        // We need to produce the shortest representation that round-trips
-        format_decimal(n)
-    }
-}
-
-/// Format a number in exponential notation matching JavaScript's output
-fn format_exponential(n: f64) -> String {
-    // Get the exponent
-    let abs_n = n.abs();
-    let exponent = math::floor(math::log10(abs_n)) as i32;
-    let mantissa = n / math::powi(10_f64, exponent);
-
-    // Format mantissa - remove trailing zeros after decimal point
-    let mantissa_str = if math::trunc(mantissa) == mantissa {
-        format!("{:.0}", mantissa)
-    } else {
-        let s = format!("{}", mantissa);
-        // Remove trailing zeros but keep at least one digit after decimal
-        s.trim_end_matches('0').to_string()
-    };
-
-    // Format exponent with sign
-    if exponent >= 0 {
-        format!("{}e+{}", mantissa_str, exponent)
-    } else {
-        format!("{}e{}", mantissa_str, exponent)
-    }
-}
-
-/// Format a number in decimal notation matching JavaScript's output
-fn format_decimal(n: f64) -> String {
-    // Use Rust's default formatting which handles most cases
-    let s = format!("{}", n);
-
-    // Remove trailing zeros after decimal point (but keep at least one digit)
-    if s.contains('.') {
-        let trimmed = s.trim_end_matches('0');
-        if trimmed.ends_with('.') {
-            format!("{}0", trimmed)
+        // Exponential notation
+        let e = point - 1;
+        let e_sign = if e < 0 { '-' } else { '+' };
+        let (first, rest) = digits.split_at(1);
+        if rest.is_empty() {
+            format!("{}{}e{}{}", sign, first, e_sign, e.abs())
         } else {
-            trimmed.to_string()
+            format!("{}{}.{}e{}{}", sign, first, rest, e_sign, e.abs())
         }
-    } else {
-        s
     }
 }
 
